@@ -536,7 +536,76 @@ fn id_perturbations(fx: &IdFix, base: &VIn, atoms: &[Atom<AttributeKind>], other
     m
 }
 
+/// A0: the stand-alone attribute API of `id_prover` / `id_verifier`: opening of an attribute
+/// commitment and the range proof wrappers, on every (value, lower, upper) triple of the
+/// neighbour alphabets, both proof versions.
+fn layer_a0(report: &Report, cli: &Cli, global: &GlobalContext<C>) {
+    use concordium_base::id::{id_prover::prove_attribute_in_range, id_verifier::{verify_attribute, verify_attribute_range}};
+    use concordium_base::random_oracle::RandomOracle;
+    let key = &global.on_chain_commitment_key;
+    let gens = global.bulletproof_generators();
+    let mut cases = vec![];
+    for (v, nb) in string_alphabets() {
+        for lo in &nb {
+            for hi in &nb {
+                for ver in [ProofVersion::Version1, ProofVersion::Version2] {
+                    cases.push((v.clone(), lo.clone(), hi.clone(), ver));
+                }
+            }
+        }
+    }
+    report.set_extra("layer_a0_range_triples", json!(cases.len()));
+    cases.par_iter().enumerate().for_each(|(i, (v, lo, hi, ver))| {
+        case(report, json!({"layer": "attribute-api", "version": vname(*ver), "value": format!("{v:?}"), "lower": format!("{lo:?}"), "upper": format!("{hi:?}")}), || {
+            let mut r = rng(cli.seed, 18_900 + i as u64);
+            let rnd = PedersenRandomness::<C>::generate(&mut r);
+            let cmm = key.hide(&Value::<C>::new(v.to_field_element()), &rnd);
+            // opening
+            report.trace(2);
+            if !verify_attribute(key, v, &rnd, &cmm) {
+                return fail("valid-opening-rejected", json!({}));
+            }
+            if lo != v && verify_attribute(key, lo, &rnd, &cmm) {
+                return fail("opening-verifies-for-other-attribute", json!({}));
+            }
+            let t = truth(&St::Range(lo.clone(), hi.clone()), v);
+            let proof = prove_attribute_in_range(*ver, &mut RandomOracle::domain("attribute_range_proof"), &mut r, gens, key, v, lo, hi, &rnd);
+            report.trace(1);
+            match (&t, proof) {
+                (Truth::True, None) => fail("true-statement-not-provable", json!({})),
+                (_, None) => Ok(()),
+                (t, Some(p)) => {
+                    let ok = verify_attribute_range(*ver, &mut RandomOracle::domain("attribute_range_proof"), key, gens, lo, hi, &cmm, &p).is_ok();
+                    match t {
+                        Truth::True if !ok => fail("valid-proof-rejected", json!({})),
+                        Truth::False if ok => fail("false-statement-verifies", json!({})),
+                        Truth::Wide if ok => {
+                            report.outcome("true-but-wide range proved", 1);
+                            Ok(())
+                        }
+                        _ => {
+                            if ok {
+                                // bound to the version and to the bounds
+                                let other = if *ver == ProofVersion::Version1 { ProofVersion::Version2 } else { ProofVersion::Version1 };
+                                report.trace(2);
+                                if verify_attribute_range(other, &mut RandomOracle::domain("attribute_range_proof"), key, gens, lo, hi, &cmm, &p).is_ok() {
+                                    return fail("altered-statement-or-context-verifies", json!({"what": "other proof version"}));
+                                }
+                                if verify_attribute_range(*ver, &mut RandomOracle::domain("attribute_range_proof"), key, gens, hi, lo, &cmm, &p).is_ok() && lo != hi {
+                                    return fail("altered-statement-or-context-verifies", json!({"what": "bounds swapped"}));
+                                }
+                            }
+                            Ok(())
+                        }
+                    }
+                }
+            }
+        });
+    });
+}
+
 fn layer_a(report: &Report, cli: &Cli, global: &GlobalContext<C>) {
+    layer_a0(report, cli, global);
     let fx = id_fix(cli, global);
     let alph = string_alphabets();
     let quick = cli.tier == Tier::Quick;
